@@ -35,6 +35,15 @@ def parse_nrf(lit):
 
 def exact(lit):
     sign, d, e10 = parse_nrf(lit)
+    if d == 0:
+        return Fraction(0)
+    # exponents of many digits (1E-99999999999): far beyond every boundary that matters here (|x| < 5e-324 or
+    # > 1.8e308, every integer type), so a stand-in of the same sign decides identically without 10**huge
+    mag = len(str(d)) + e10
+    if mag > 400:
+        return Fraction(sign * 10 ** 400)
+    if mag < -400:
+        return Fraction(sign, 10 ** 400)
     if e10 >= 0:
         return Fraction(sign * d * 10 ** e10)
     return Fraction(sign * d, 10 ** (-e10))
